@@ -24,7 +24,7 @@ def run(prop, tier, seed):
         for m in (False, True):
             tag = ("d" if d else "l") + ("m" if m else "s")
             props.append({"module": M, "cfg": "C18_p%s.cfg" % tag,
-                          "extra_defs": {"C18_p%s.cfg" % tag: cfg(maxops=5 if quick else 7, dictdecl=d, multi=m)},
+                          "extra_defs": {"C18_p%s.cfg" % tag: cfg(maxops=4 if quick else 6, dictdecl=d, multi=m)},
                           "must_cover": ["PopIndex", "Remove_", "Clear_", "Replace_"]})
             n = "C18_g%s.cfg" % tag
             gens.append({"module": M, "cfg": n, "workers": 4,
